@@ -219,6 +219,7 @@ Definition expected : contracts := [
      Check "indices" [DVar "k"] None]);
   ("polliwog.polyline._polyline_object.Polyline.with_segments_bisected", [
      Check "segment_indices" [DAny] None]);
+  ("polliwog.polyline._slice_by_plane._crossing_point", []);
   ("polliwog.polyline._slice_by_plane.slice_open_polyline_by_plane", [
      Check "vertices" [DAny; DInt 3] (Some "num_v")]);
   ("polliwog.polyline._try_inflection_points.load_front_torso_mesh", []);
@@ -465,7 +466,7 @@ Definition documented_args : list (string * list string) := [
   ("polliwog.transform._rotation.euler", ["xyz"]);
   ("polliwog.transform._rotation.rotation_from_up_and_look", ["up"; "look"]);
   ("polliwog.transform._viewing.world_to_canvas_orthographic_projection", ["position"; "target"]);
-  ("polliwog.transform._viewing.world_to_view", ["position"; "target"]);
+  ("polliwog.transform._viewing.world_to_view", ["position"; "target"; "up"]);
   ("polliwog.tri.functions.barycentric_coordinates_of_points", ["vertices_of_tris"; "points"]);
   ("polliwog.tri.functions.edges_of_faces", ["faces"]);
   ("polliwog.tri.functions.sample", ["vertices_of_tris"; "weights"]);
@@ -481,4 +482,254 @@ Definition external_contracts : contracts := [
 ].
 
 (* callables whose acceptance logic is not a sequence of shape checks (judged by the oracle only) *)
-Definition not_modelled : list string := ["polliwog.transform._rodrigues.cv2_rodrigues"].
+Definition not_modelled : list string := ["polliwog.transform._rodrigues.cv2_rodrigues"; "polliwog.transform._viewing.world_to_view"].
+
+(* the documented single / stacked forms of every registered array-taking callable (arguments in the order of
+   documented_args; length symbols shared between arguments; minimum sizes are value checks and omitted) *)
+Definition documented_forms : list (string * list form) := [
+  ("polliwog.box._box_object.Box.__init__", [
+     [("origin", FArr [FInt 3]); ("size", FArr [FInt 3])]]);
+  ("polliwog.box._box_object.Box.contains", [
+     [("point", FArr [FInt 3])]]);
+  ("polliwog.box._box_object.Box.from_points", [
+     [("points", FArr [FSym "k"; FInt 3])]]);
+  ("polliwog.line._line_functions.coplanar_points_are_on_same_side_of_line", [
+     [("a", FArr [FInt 3]); ("b", FArr [FInt 3]); ("p1", FArr [FInt 3]); ("p2", FArr [FInt 3])];
+     [("a", FArr [FSym "k"; FInt 3]); ("b", FArr [FSym "k"; FInt 3]); ("p1", FArr [FSym "k"; FInt 3]); ("p2", FArr [FSym "k"; FInt 3])]]);
+  ("polliwog.line._line_functions.project_point_to_line", [
+     [("points", FArr [FInt 3]); ("reference_points_of_lines", FArr [FInt 3]); ("vectors_along_lines", FArr [FInt 3])];
+     [("points", FArr [FSym "k"; FInt 3]); ("reference_points_of_lines", FArr [FInt 3]); ("vectors_along_lines", FArr [FInt 3])];
+     [("points", FArr [FInt 3]); ("reference_points_of_lines", FArr [FSym "m"; FInt 3]); ("vectors_along_lines", FArr [FSym "m"; FInt 3])];
+     [("points", FArr [FSym "k"; FInt 3]); ("reference_points_of_lines", FArr [FSym "k"; FInt 3]); ("vectors_along_lines", FArr [FSym "k"; FInt 3])]]);
+  ("polliwog.line._line_intersect.intersect_2d_lines", [
+     [("p0", FArr [FInt 2]); ("q0", FArr [FInt 2]); ("p1", FArr [FInt 2]); ("q1", FArr [FInt 2])]]);
+  ("polliwog.line._line_intersect.intersect_lines", [
+     [("p0", FArr [FInt 3]); ("q0", FArr [FInt 3]); ("p1", FArr [FInt 3]); ("q1", FArr [FInt 3])]]);
+  ("polliwog.line._line_object.Line.__init__", [
+     [("point", FArr [FInt 3]); ("along", FArr [FInt 3])]]);
+  ("polliwog.line._line_object.Line.from_points", [
+     [("p1", FArr [FInt 3]); ("p2", FArr [FInt 3])]]);
+  ("polliwog.line._line_object.Line.project", [
+     [("points", FArr [FInt 3])];
+     [("points", FArr [FSym "k"; FInt 3])]]);
+  ("polliwog.plane._plane_functions.mirror_point_across_plane", [
+     [("points", FArr [FInt 3]); ("plane_equations", FArr [FInt 4])];
+     [("points", FArr [FSym "k"; FInt 3]); ("plane_equations", FArr [FInt 4])];
+     [("points", FArr [FInt 3]); ("plane_equations", FArr [FSym "m"; FInt 4])];
+     [("points", FArr [FSym "k"; FInt 3]); ("plane_equations", FArr [FSym "k"; FInt 4])]]);
+  ("polliwog.plane._plane_functions.normal_and_offset_from_plane_equations", [
+     [("plane_equations", FArr [FInt 4])];
+     [("plane_equations", FArr [FSym "k"; FInt 4])]]);
+  ("polliwog.plane._plane_functions.plane_equation_from_points", [
+     [("points", FArr [FInt 3; FInt 3])];
+     [("points", FArr [FSym "k"; FInt 3; FInt 3])]]);
+  ("polliwog.plane._plane_functions.plane_normal_from_points", [
+     [("points", FArr [FInt 3; FInt 3])];
+     [("points", FArr [FSym "k"; FInt 3; FInt 3])]]);
+  ("polliwog.plane._plane_functions.project_point_to_plane", [
+     [("points", FArr [FInt 3]); ("plane_equations", FArr [FInt 4])];
+     [("points", FArr [FSym "k"; FInt 3]); ("plane_equations", FArr [FInt 4])];
+     [("points", FArr [FInt 3]); ("plane_equations", FArr [FSym "m"; FInt 4])];
+     [("points", FArr [FSym "k"; FInt 3]); ("plane_equations", FArr [FSym "k"; FInt 4])]]);
+  ("polliwog.plane._plane_functions.signed_distance_to_plane", [
+     [("points", FArr [FInt 3]); ("plane_equations", FArr [FInt 4])];
+     [("points", FArr [FSym "k"; FInt 3]); ("plane_equations", FArr [FInt 4])];
+     [("points", FArr [FInt 3]); ("plane_equations", FArr [FSym "m"; FInt 4])];
+     [("points", FArr [FSym "k"; FInt 3]); ("plane_equations", FArr [FSym "k"; FInt 4])]]);
+  ("polliwog.plane._plane_intersect.intersect_segment_with_plane", [
+     [("start_points", FArr [FInt 3]); ("segment_vectors", FArr [FInt 3]); ("points_on_plane", FArr [FInt 3]); ("plane_normals", FArr [FInt 3])];
+     [("start_points", FArr [FSym "k"; FInt 3]); ("segment_vectors", FArr [FSym "k"; FInt 3]); ("points_on_plane", FArr [FSym "k"; FInt 3]); ("plane_normals", FArr [FSym "k"; FInt 3])]]);
+  ("polliwog.plane._plane_object.Plane.__init__", [
+     [("reference_point", FArr [FInt 3]); ("normal", FArr [FInt 3])]]);
+  ("polliwog.plane._plane_object.Plane.distance", [
+     [("points", FArr [FInt 3])];
+     [("points", FArr [FSym "k"; FInt 3])]]);
+  ("polliwog.plane._plane_object.Plane.fit_from_points", [
+     [("points", FArr [FSym "k"; FInt 3])]]);
+  ("polliwog.plane._plane_object.Plane.from_point_and_normal", [
+     [("reference_point", FArr [FInt 3]); ("normal", FArr [FInt 3])]]);
+  ("polliwog.plane._plane_object.Plane.from_points", [
+     [("p1", FArr [FInt 3]); ("p2", FArr [FInt 3]); ("p3", FArr [FInt 3])]]);
+  ("polliwog.plane._plane_object.Plane.from_points_and_vector", [
+     [("p1", FArr [FInt 3]); ("p2", FArr [FInt 3]); ("vector", FArr [FInt 3])]]);
+  ("polliwog.plane._plane_object.Plane.line_segment_xsection", [
+     [("a", FArr [FInt 3]); ("b", FArr [FInt 3])]]);
+  ("polliwog.plane._plane_object.Plane.line_segment_xsections", [
+     [("a", FArr [FSym "k"; FInt 3]); ("b", FArr [FSym "k"; FInt 3])]]);
+  ("polliwog.plane._plane_object.Plane.line_xsection", [
+     [("pt", FArr [FInt 3]); ("ray", FArr [FInt 3])]]);
+  ("polliwog.plane._plane_object.Plane.line_xsections", [
+     [("pts", FArr [FSym "k"; FInt 3]); ("rays", FArr [FSym "k"; FInt 3])]]);
+  ("polliwog.plane._plane_object.Plane.mirror_point", [
+     [("points", FArr [FInt 3])];
+     [("points", FArr [FSym "k"; FInt 3])]]);
+  ("polliwog.plane._plane_object.Plane.points_in_front", [
+     [("points", FArr [FSym "k"; FInt 3])]]);
+  ("polliwog.plane._plane_object.Plane.points_on_or_in_front", [
+     [("points", FArr [FSym "k"; FInt 3])]]);
+  ("polliwog.plane._plane_object.Plane.project_point", [
+     [("points", FArr [FInt 3])];
+     [("points", FArr [FSym "k"; FInt 3])]]);
+  ("polliwog.plane._plane_object.Plane.sign", [
+     [("points", FArr [FInt 3])];
+     [("points", FArr [FSym "k"; FInt 3])]]);
+  ("polliwog.plane._plane_object.Plane.signed_distance", [
+     [("points", FArr [FInt 3])];
+     [("points", FArr [FSym "k"; FInt 3])]]);
+  ("polliwog.plane._plane_object.Plane.tilted", [
+     [("new_point", FArr [FInt 3]); ("coplanar_point", FArr [FInt 3])]]);
+  ("polliwog.plane._slicing.slice_triangles_by_plane", [
+     [("vertices", FArr [FSym "n"; FInt 3]); ("faces", FArr [FSym "f"; FInt 3]); ("plane_reference_point", FArr [FInt 3]); ("plane_normal", FArr [FInt 3]); ("faces_to_slice", FNone)];
+     [("vertices", FArr [FSym "n"; FInt 3]); ("faces", FArr [FSym "f"; FInt 3]); ("plane_reference_point", FArr [FInt 3]); ("plane_normal", FArr [FInt 3]); ("faces_to_slice", FArr [FSym "f"])]]);
+  ("polliwog.pointcloud._pointcloud_functions.extent", [
+     [("points", FArr [FSym "k"; FInt 3])]]);
+  ("polliwog.pointcloud._pointcloud_functions.percentile", [
+     [("points", FArr [FSym "k"; FInt 3]); ("axis", FArr [FInt 3])]]);
+  ("polliwog.polyline._inflection_points.inflection_points", [
+     [("points", FArr [FSym "k"; FInt 3]); ("rise_axis", FArr [FInt 3]); ("run_axis", FArr [FInt 3])]]);
+  ("polliwog.polyline._inflection_points.point_of_max_acceleration", [
+     [("points", FArr [FSym "k"; FInt 3]); ("rise_axis", FArr [FInt 3]); ("run_axis", FArr [FInt 3])]]);
+  ("polliwog.polyline._polyline_object.Polyline.__init__", [
+     [("v", FArr [FSym "k"; FInt 3])]]);
+  ("polliwog.polyline._polyline_object.Polyline.aligned_along_subsegment", [
+     [("p1", FArr [FInt 3]); ("p2", FArr [FInt 3])]]);
+  ("polliwog.polyline._polyline_object.Polyline.aligned_with", [
+     [("vector", FArr [FInt 3])]]);
+  ("polliwog.polyline._polyline_object.Polyline.apex", [
+     [("axis", FArr [FInt 3])]]);
+  ("polliwog.polyline._polyline_object.Polyline.index_of_vertex", [
+     [("point", FArr [FInt 3])]]);
+  ("polliwog.polyline._polyline_object.Polyline.nearest", [
+     [("points", FArr [FInt 3])];
+     [("points", FArr [FSym "k"; FInt 3])]]);
+  ("polliwog.polyline._polyline_object.Polyline.point_along_path", [
+     [("fraction_of_total", FNumber)];
+     [("fraction_of_total", FArr [FSym "k"])]]);
+  ("polliwog.polyline._polyline_object.Polyline.sectioned", [
+     [("section_breakpoints", FArr [FSym "m"])]]);
+  ("polliwog.polyline._polyline_object.Polyline.sliced_at_points", [
+     [("start_point", FArr [FInt 3]); ("end_point", FArr [FInt 3])]]);
+  ("polliwog.polyline._polyline_object.Polyline.subdivided_by_length", [
+     [("edges_to_subdivide", FNone)];
+     [("edges_to_subdivide", FArr [FSym "self.num_e"])]]);
+  ("polliwog.polyline._polyline_object.Polyline.with_insertions", [
+     [("points", FArr [FSym "k"; FInt 3]); ("indices", FArr [FSym "k"])]]);
+  ("polliwog.polyline._polyline_object.Polyline.with_segments_bisected", [
+     [("segment_indices", FArr [FSym "m"])]]);
+  ("polliwog.segment._segment_functions.closest_point_of_line_segment", [
+     [("points", FArr [FSym "k"; FInt 3]); ("start_points", FArr [FSym "k"; FInt 3]); ("segment_vectors", FArr [FSym "k"; FInt 3])]]);
+  ("polliwog.segment._segment_functions.is_point_on_line_segment", [
+     [("query_points", FArr [FSym "k"; FInt 3]); ("start_points", FArr [FSym "k"; FInt 3]); ("segment_vectors", FArr [FSym "k"; FInt 3])]]);
+  ("polliwog.segment._segment_functions.path_centroid", [
+     [("segments", FArr [FSym "k"; FInt 2; FInt 3])]]);
+  ("polliwog.segment._segment_functions.subdivide_segment", [
+     [("p1", FArr [FSym "n"]); ("p2", FArr [FSym "n"])]]);
+  ("polliwog.segment._segment_functions.subdivide_segments", [
+     [("v", FArr [FSym "k"; FSym "n"])]]);
+  ("polliwog.shapes._shapes.cube", [
+     [("origin", FArr [FInt 3])]]);
+  ("polliwog.shapes._shapes.rectangular_prism", [
+     [("origin", FArr [FInt 3]); ("size", FArr [FInt 3])]]);
+  ("polliwog.shapes._shapes.triangular_prism", [
+     [("p1", FArr [FInt 3]); ("p2", FArr [FInt 3]); ("p3", FArr [FInt 3])]]);
+  ("polliwog.transform._affine_transform.transform_matrix_for_rotation", [
+     [("rotation", FArr [FInt 3; FInt 3])];
+     [("rotation", FArr [FInt 3])]]);
+  ("polliwog.transform._affine_transform.transform_matrix_for_translation", [
+     [("translation", FArr [FInt 3])]]);
+  ("polliwog.transform._apply.apply_transform", [
+     [("transform", FArr [FInt 4; FInt 4])]]);
+  ("polliwog.transform._apply.apply_transform.<locals>.apply", [
+     [("points", FArr [FInt 3])];
+     [("points", FArr [FSym "k"; FInt 3])]]);
+  ("polliwog.transform._composite_transform.CompositeTransform.__call__", [
+     [("points", FArr [FInt 3])];
+     [("points", FArr [FSym "k"; FInt 3])]]);
+  ("polliwog.transform._composite_transform.CompositeTransform.append_transform", [
+     [("forward", FArr [FInt 4; FInt 4]); ("reverse", FNone)];
+     [("forward", FArr [FInt 4; FInt 4]); ("reverse", FArr [FInt 4; FInt 4])]]);
+  ("polliwog.transform._composite_transform.CompositeTransform.reorient", [
+     [("up", FArr [FInt 3]); ("look", FArr [FInt 3])]]);
+  ("polliwog.transform._composite_transform.CompositeTransform.rotate", [
+     [("rotation", FArr [FInt 3; FInt 3])];
+     [("rotation", FArr [FInt 3])]]);
+  ("polliwog.transform._composite_transform.CompositeTransform.translate", [
+     [("translation", FArr [FInt 3])]]);
+  ("polliwog.transform._coordinate_manager.CoordinateManager.__setattr__", [
+     [("points", FArr [FSym "k"; FInt 3])]]);
+  ("polliwog.transform._coordinate_manager.CoordinateManager.append_transform", [
+     [("forward", FArr [FInt 4; FInt 4]); ("reverse", FNone)];
+     [("forward", FArr [FInt 4; FInt 4]); ("reverse", FArr [FInt 4; FInt 4])]]);
+  ("polliwog.transform._coordinate_manager.CoordinateManager.do_transform", [
+     [("points", FArr [FInt 3])];
+     [("points", FArr [FSym "k"; FInt 3])]]);
+  ("polliwog.transform._coordinate_manager.CoordinateManager.reorient", [
+     [("up", FArr [FInt 3]); ("look", FArr [FInt 3])]]);
+  ("polliwog.transform._coordinate_manager.CoordinateManager.rotate", [
+     [("rotation", FArr [FInt 3; FInt 3])];
+     [("rotation", FArr [FInt 3])]]);
+  ("polliwog.transform._coordinate_manager.CoordinateManager.translate", [
+     [("translation", FArr [FInt 3])]]);
+  ("polliwog.transform._rodrigues.cv2_rodrigues", [
+     [("r", FArr [FInt 3])];
+     [("r", FArr [FInt 3; FInt 1])];
+     [("r", FArr [FInt 1; FInt 3])];
+     [("r", FArr [FInt 3; FInt 3])]]);
+  ("polliwog.transform._rodrigues.rodrigues_vector_to_rotation_matrix", [
+     [("r", FArr [FInt 3])];
+     [("r", FArr [FInt 3; FInt 1])];
+     [("r", FArr [FInt 1; FInt 3])]]);
+  ("polliwog.transform._rodrigues.rotation_matrix_to_rodrigues_vector", [
+     [("r", FArr [FInt 3; FInt 3])]]);
+  ("polliwog.transform._rotation.euler", [
+     [("xyz", FArr [FSym "n"])]]);
+  ("polliwog.transform._rotation.rotation_from_up_and_look", [
+     [("up", FArr [FInt 3]); ("look", FArr [FInt 3])]]);
+  ("polliwog.transform._viewing.world_to_canvas_orthographic_projection", [
+     [("position", FArr [FInt 3]); ("target", FArr [FInt 3])]]);
+  ("polliwog.transform._viewing.world_to_view", [
+     [("position", FArr [FInt 3]); ("target", FArr [FInt 3]); ("up", FNone)];
+     [("position", FArr [FInt 3]); ("target", FArr [FInt 3]); ("up", FArr [FInt 3])]]);
+  ("polliwog.tri.functions.barycentric_coordinates_of_points", [
+     [("vertices_of_tris", FArr [FSym "k"; FInt 3; FInt 3]); ("points", FArr [FSym "k"; FInt 3])]]);
+  ("polliwog.tri.functions.edges_of_faces", [
+     [("faces", FArr [FSym "f"; FInt 3])]]);
+  ("polliwog.tri.functions.sample", [
+     [("vertices_of_tris", FArr [FSym "k"; FInt 3; FInt 3]); ("weights", FNone)];
+     [("vertices_of_tris", FArr [FSym "k"; FInt 3; FInt 3]); ("weights", FArr [FSym "k"])]]);
+  ("polliwog.tri.functions.surface_area", [
+     [("vertices_of_tris", FArr [FInt 3; FInt 3])];
+     [("vertices_of_tris", FArr [FSym "k"; FInt 3; FInt 3])]]);
+  ("polliwog.tri.functions.surface_normals", [
+     [("points", FArr [FInt 3; FInt 3])];
+     [("points", FArr [FSym "k"; FInt 3; FInt 3])]]);
+  ("polliwog.tri.functions.tri_contains_coplanar_point", [
+     [("a", FArr [FInt 3]); ("b", FArr [FInt 3]); ("c", FArr [FInt 3]); ("point", FArr [FInt 3])];
+     [("a", FArr [FSym "k"; FInt 3]); ("b", FArr [FSym "k"; FInt 3]); ("c", FArr [FSym "k"; FInt 3]); ("point", FArr [FSym "k"; FInt 3])]]);
+  ("polliwog.tri.quad_faces.quads_to_tris", [
+     [("quads", FArr [FSym "f"; FInt 4])]])
+].
+
+(* ---- specification vocabulary over these tables, used by the statements in props/C20.v ------------------------ *)
+Definition all_contracts : contracts := (expected ++ external_contracts)%list.
+
+(* every array argument a public callable documents reaches a shape check: of the callable itself, or of the callee it
+   hands the argument to (delegation table).  NOTE: "reaches a check" -- not "the accepted shapes are the documented ones" *)
+Definition strict_row (na : string * list string) : bool :=
+  mem (fst na) not_modelled || forallb (covered all_contracts delegation (fst na)) (snd na).
+
+Definition sd_name := "polliwog.plane._plane_functions.signed_distance_to_plane".
+Definition cp_name := "polliwog.segment._segment_functions.closest_point_of_line_segment".
+Definition rv_name := "polliwog.transform._rodrigues.rodrigues_vector_to_rotation_matrix".
+(* documented: "a 3x1 or 1x3 Rodrigues vector" (and the plain 3-vector) *)
+Definition rv_documented : list shape := [[3]; [3; 1]; [1; 3]].
+Definition off_contract (doc : list shape) (s : shape) : Prop := ~ In s doc.
+
+(* "accepts exactly the documented forms" is decided over the finite universe M_shape.universe, for all argument
+   positions jointly; receiver-dependent lengths are fixed (a polyline with 6 edges).  Exempt: the callables that are
+   not a sequence of shape checks, and the Rodrigues vector (known finding: flattened before the check). *)
+Definition forms_b0 : benv := [("self.num_e", Some 6)].
+Definition forms_exempt : list string := (rv_name :: not_modelled)%list.
+Definition names_of (n : string) : list string := match assoc documented_args n with Some l => l | None => [] end.
+Definition forms_row (nf : string * list form) : bool :=
+  mem (fst nf) forms_exempt || forms_agree all_contracts delegation forms_b0 (fst nf) (names_of (fst nf)) (snd nf).
